@@ -360,7 +360,7 @@ func init() {
 		c05Run(c, res)
 		return res.Viol, nil
 	}
-	registerCheck("C05", "model_checking", 120*time.Second, 20*time.Minute, func(r *Run) {
+	registerCheck("C05", "exploration", 120*time.Second, 20*time.Minute, func(r *Run) {
 		chains := []int{0, 1}
 		if !r.Quick() {
 			chains = []int{0, 1, 2, 3}
